@@ -438,4 +438,74 @@ def value_cases(bf, t, conds=(), depth=0):
         c_, v_ = t[2]
         return value_cases(bf, ('agg', 'core::option::Option::Some', (('0', v_),)), conds + [(c_, (1,), None)], depth + 1) + \
             [(('agg', 'core::option::Option::None', ()), conds + [(c_, (0,), None)])]
+    if t[0] == 'call' and isinstance(t[1], str) and t[1].endswith('Option::map') and len(t[2]) == 2 and isinstance(t[2][1], tuple) and t[2][1][:1] == ('closure',) and _PF is not None:
+        # opt.map(|_| expr): Some(expr) exactly when opt is Some (expr may only use captured values)
+        opt, clo = t[2]
+        ret = _closure_return(clo)
+        if ret is not None:
+            is_some = ('call', 'core::option::Option::is_some', (('ref', opt),), None)
+            return value_cases(bf, ('agg', 'core::option::Option::Some', (('0', ret),)), conds + [(is_some, (1,), None)], depth + 1) + \
+                [(('agg', 'core::option::Option::None', ()), conds + [(is_some, (0,), None)])]
     return [(t0, conds)]
+
+
+_PF = None
+
+
+def set_progflow(pf):
+    global _PF
+    _PF = pf
+
+
+def _closure_return(clo):
+    """return term of a closure whose body is a single expression over its captures (parameter 2.. unused), captures substituted"""
+    path, caps = clo[1], clo[2]
+    bl = _PF.prog.by_short.get(strip_generics(path)) or _PF.prog.by_short.get(path) or []
+    if len(bl) != 1:
+        return None
+    cbf = _PF.bf(bl[0])
+    rets = [st for b in cbf.body.blocks if not b.cleanup and b.idx in cbf.cfg.reach for st in b.stmts if st.k == 'assign' and st.lhs.is_local() and st.lhs.local == 0]
+    if len(rets) != 1 or any(b.term.k == 'call' for b in cbf.body.blocks if not b.cleanup and b.idx in cbf.cfg.reach):
+        return None
+    st = rets[0]
+    if st.rv.k == 'use':
+        rt = term_of_operand(cbf, st.rv.ops[0])
+    elif st.rv.k == 'agg' and st.rv.d.get('ak') == 'adt':
+        nm = strip_generics(st.rv.d['adt']) + ('::' + st.rv.d['variant'] if st.rv.d.get('is_enum') else '')
+        fl = st.rv.d.get('fields', [])
+        rt = ('agg', nm, tuple((fl[i] if i < len(fl) else str(i), term_of_operand(cbf, o)) for i, o in enumerate(st.rv.ops)))
+    else:
+        return None
+
+    def rw(x):
+        if isinstance(x, tuple):
+            if len(x) == 3 and x[0] == 'field' and isinstance(x[2], str) and x[2].isdigit() and x[1] in (('param', 1), ('deref', ('param', 1))) and int(x[2]) < len(caps):
+                return caps[int(x[2])]
+            r = tuple(rw(y) for y in x)
+            if len(r) == 2 and r[0] == 'deref' and isinstance(r[1], tuple) and len(r[1]) == 2 and r[1][0] == 'ref':
+                return r[1][1]
+            return r
+        return x
+    # the closure's own arguments (parameters 2..) must not be used: the value is a constant of the captures
+    if flow.term_contains(rt, lambda y: isinstance(y, tuple) and len(y) == 2 and y[0] == 'param' and isinstance(y[1], int) and y[1] >= 2):
+        return None
+    return rw(rt)
+
+
+def flag_meaning(bf, cond):
+    """a condition on a boolean flag local that is set to true in exactly one place (`matches!`, `let ok = a && b`):
+    returns (polarity, [conditions under which the flag is true that are not common to all its definitions]) or None"""
+    t = cond[0]
+    if not (isinstance(t, tuple) and t[:1] == ('phi',)) or not (cond_true(cond) or cond_false(cond)):
+        return None
+    defs = defs_with_conditions(bf, t[1])
+    tds = [d for d in defs if d[0] in (('const', 1), ('const', True))]
+    fds = [d for d in defs if d[0] in (('const', 0), ('const', False))]
+    if len(tds) != 1 or len(tds) + len(fds) != len(defs) or not fds:
+        return None
+    common = None
+    for d in fds:
+        ks = [(x[0], x[1]) for x in d[1]]
+        common = ks if common is None else [k for k in common if k in ks]
+    spec = [x for x in tds[0][1] if (x[0], x[1]) not in (common or [])]
+    return (cond_true(cond), spec)
